@@ -140,16 +140,92 @@ def generate(o):
         return out
 
     def array_shape():
-        """parse_array: `[parser(v) for v in x]` with `parser = element_type.parse`, no filter, no condition."""
+        """parse_array: `[parser(v) for v in x]` with `parser = element_type.parse`, no filter, no condition.
+        Local names are normalised (a renamed loop variable / parameter / parser variable is the same shape)."""
+        import copy
+
         fn = ty.func("parse_array")
         comps = [n for n in ast.walk(fn) if isinstance(n, ast.ListComp)]
         if len(comps) != 1:
             raise KeyError("one list comprehension")
-        pa = [n for n in ast.walk(fn) if isinstance(n, ast.Assign) and ast.unparse(n.targets[0]) == "parser"]
-        if len(pa) != 1:
-            raise KeyError("parser = ...")
-        return [ast.unparse(comps[0]), ast.unparse(pa[0].value)]
+        comp = comps[0]
+        ren = {}
+        if len(comp.generators) == 1 and isinstance(comp.generators[0].target, ast.Name):
+            ren[comp.generators[0].target.id] = "v"
+        if fn.args.args:
+            ren[fn.args.args[0].arg] = "x"
+        et = [n for n in ast.walk(fn) if isinstance(n, ast.Assign) and len(n.targets) == 1 and isinstance(n.targets[0], ast.Name)
+              and ast.unparse(n.value) in ("kwargs.get('element_type')", "kwargs['element_type']")]
+        if len(et) == 1:
+            ren[et[0].targets[0].id] = "element_type"
+        pa = [n for n in ast.walk(fn) if isinstance(n, ast.Assign) and len(n.targets) == 1 and isinstance(n.targets[0], ast.Name)
+              and isinstance(comp.elt, ast.Call) and isinstance(comp.elt.func, ast.Name) and n.targets[0].id == comp.elt.func.id]
+        if len(pa) == 1:
+            ren[pa[0].targets[0].id] = "parser"
+        else:
+            pa = [n for n in ast.walk(fn) if isinstance(n, ast.Assign) and ast.unparse(n.targets[0]) == "parser"]
+            if len(pa) != 1:
+                raise KeyError("parser = ...")
 
+        class R(ast.NodeTransformer):
+            def visit_Name(self, node):
+                return ast.copy_location(ast.Name(id=ren.get(node.id, node.id), ctx=node.ctx), node)
+
+        return [ast.unparse(R().visit(copy.deepcopy(comp))), ast.unparse(R().visit(copy.deepcopy(pa[0].value)))]
+
+    def type_names():
+        """The str-valued members of the OrsoTypes enum, in source order."""
+        for n in ty.tree.body:
+            if isinstance(n, ast.ClassDef) and n.name == "OrsoTypes":
+                out = []
+                for st in n.body:
+                    if isinstance(st, ast.Assign) and len(st.targets) == 1 and isinstance(st.targets[0], ast.Name) \
+                            and isinstance(st.value, ast.Constant) and isinstance(st.value.value, str):
+                        if st.targets[0].id != st.value.value:
+                            raise KeyError("member %s has another value" % st.targets[0].id)
+                        out.append(st.value.value)
+                if not out:
+                    raise KeyError("no members")
+                return out
+        raise KeyError("OrsoTypes")
+
+    def parse_method():
+        """OrsoTypes.parse: `if <test on value>: return None` then `return <TABLE>[self.value](value, **kwargs)`."""
+        fn = find_function(ty.tree, "parse", "OrsoTypes")
+        body = [st for st in fn.body if not (isinstance(st, ast.Expr) and isinstance(st.value, ast.Constant))]
+        if len(body) != 2 or [a.arg for a in fn.args.args] != ["self", "value"] or fn.args.kwarg is None:
+            raise KeyError("parse(self, value, **kwargs): two statements")
+        g, r = body
+        if not (isinstance(g, ast.If) and not g.orelse and len(g.body) == 1 and isinstance(g.body[0], ast.Return)
+                and (g.body[0].value is None or (isinstance(g.body[0].value, ast.Constant) and g.body[0].value.value is None))):
+            raise KeyError("if <test>: return None")
+        test = to_lean(g.test, {"value is None": "isNone", "value is not None": "(¬ isNone)", "value == None": "isNone",
+                                "not value": "falsy"})
+        kw = fn.args.kwarg.arg
+        if not (isinstance(r, ast.Return) and isinstance(r.value, ast.Call) and isinstance(r.value.func, ast.Subscript)
+                and isinstance(r.value.func.value, ast.Name) and ast.unparse(r.value.func.slice) in ("self.value", "self")
+                and [ast.unparse(a) for a in r.value.args] == ["value"]
+                and [(k.arg, ast.unparse(k.value)) for k in r.value.keywords] == [(None, kw)]):
+            raise KeyError("return TABLE[self.value](value, **kwargs)")
+        return [test, r.value.func.value.id]
+
+    def bool_fold():
+        """parse_boolean: `<text of x>.<fold>() in BOOLEAN_STRINGS`."""
+        fn = ty.func("parse_boolean")
+        body = [st for st in fn.body if not (isinstance(st, ast.Expr) and isinstance(st.value, ast.Constant))]
+        if len(body) != 1 or not isinstance(body[0], ast.Return):
+            raise KeyError("single return")
+        e = body[0].value
+        if not (isinstance(e, ast.Compare) and len(e.ops) == 1 and isinstance(e.ops[0], ast.In) and ast.unparse(e.comparators[0]) == "BOOLEAN_STRINGS"
+                and isinstance(e.left, ast.Call) and isinstance(e.left.func, ast.Attribute) and not e.left.args and not e.left.keywords):
+            raise KeyError("<text>.<fold>() in BOOLEAN_STRINGS")
+        if e.left.func.attr not in ("upper", "lower"):
+            raise KeyError("fold %s" % e.left.func.attr)
+        return e.left.func.attr
+
+    tn = o.item("cast.type_names", type_names, [p_[0] for p_ in PIN_PARSER])
+    pmth = o.item("cast.parse_method", parse_method, ["isNone", "ORSO_TO_PYTHON_PARSER"])
+    bf = o.item("cast.bool_fold", bool_fold, "upper")
     ar = o.item("cast.array_comprehension", array_shape, ["[parser(v) for v in x]", "element_type.parse"])
     bs = o.item("cast.BOOLEAN_STRINGS", bools, [PIN_BOOL, PIN_BOOL])
     pm = o.item("cast.ORSO_TO_PYTHON_MAP", dmap("ORSO_TO_PYTHON_MAP"), PIN_MAP)
@@ -176,5 +252,11 @@ def generate(o):
         t += "/-- …and the upper bound of `value[:stop]` -/\ndef %sStop (length : Int) : Int := %s\n" % (nm, stop)
     t += "/-- parse_array's comprehension and the parser it applies (source text) -/\n"
     t += "def arrayComprehension : String := %s\ndef arrayParser : String := %s\n" % (lean_str(ar[0]), lean_str(ar[1]))
+    t += "/-- the str-valued members of the OrsoTypes enum -/\ndef typeNames : List String := %s\n" % lean_list(tn, lean_str)
+    t += ("/-- OrsoTypes.parse: the test of the early `return None` (`isNone`: value is None; `falsy`: not value) -/\n"
+          "def nullGuard (isNone falsy : Prop) : Prop := %s\n" % pmth[0])
+    t += "instance (a b : Prop) [Decidable a] [Decidable b] : Decidable (nullGuard a b) := by unfold nullGuard; infer_instance\n"
+    t += "/-- …and the table it dispatches through with `self.value` -/\ndef dispatchTable : String := %s\n" % lean_str(pmth[1])
+    t += "/-- parse_boolean: the case fold applied before the membership test -/\ndef boolFold : String := %s\n" % lean_str(bf)
     t += "end Gen.Cast\n"
     o.files["Cast.lean"] = t
